@@ -878,6 +878,14 @@ class MutableFileVersion:
         """
         assert self._servermap.get_last_update()[0] != MODE_READ
 
+        # The servermap has just been updated (on a retry: because somebody
+        # else published in the meantime). Work from the best version it
+        # shows now, not from the one this object was created for.
+        best_version = self._servermap.best_recoverable_version()
+        if best_version is None:
+            raise UnrecoverableFileError("no recoverable versions")
+        self._version = best_version
+
         # download_to_data is serialized, so we have to call this to
         # avoid deadlock.
         d = self._try_to_download_data()
